@@ -3,7 +3,7 @@
    verifhook gates (or, for the gate-free stress, the recorded invocation/response stamps), and
    everything that was observed. *)
 From SC Require Import Base.Prelude Resource.Impl Resource.Spec Resource.Pull Resource.Flat Resource.Judge
-  Conc.Lts Conc.LossyPipe.
+  Conc.Lts Conc.LossyPipe Conc.GenLts.
 
 Inductive fcall :=
 | FSet (msg : fmsg) (o : fwo)
@@ -39,7 +39,14 @@ Inductive ccase :=
    goroutines running free on all cores; observed as in CaseSched.  Judged by the oracle alone. *)
 | CaseFree (idf : option idf) (vinit : option fmsg) (cinit : list (string * fmsg * Z))
            (prog : list fcall) (results : list fout) (final_v : option fmsg) (final_c : list (string * fmsg))
-           (vstreams : list (nat * list ovchange)) (cstreams : list (nat * list ochange)) (closed : list nat).
+           (vstreams : list (nat * list ovchange)) (cstreams : list (nat * list ochange)) (closed : list nat)
+(* a forced schedule of Collection calls with generated ids and callbacks (Conc/GenLts.v): an Add / Update
+   with an empty id and o_gen_id generates; cands[t] = the ten candidates (already base64-encoded) the rng
+   of thread t's call produces; reported[t] = the ids its id callback received, in order; created[t] = the
+   number of times its created callback was invoked *)
+| CaseGen (idf : option idf) (cinit : list (string * fmsg * Z)) (prog : list fcall) (cands : list (list string))
+          (sched : list nat) (results : list fout) (reported : list (list string)) (created : list Z)
+          (final_c : list (string * fmsg)).
 
 (* ---------- instantiation ---------- *)
 Notation lcall := (call fmsg fwriter (list fld)).
@@ -186,6 +193,16 @@ Definition lossy_matches (l : flsub) (vstreams : list (nat * list ovchange)) (cs
 (* the model version compared with the implementation: false = the repaired create path *)
 Definition model_v0 := false.
 
+(* ---------- generated ids and callbacks: the run of Conc/GenLts.v ---------- *)
+Definition f_grun (i : option idf) (prog : list fcall) (cands : list (list string)) (sched : list nat)
+           (cinit : list (string * fmsg * Z)) :=
+  let cprog := map to_call prog in
+  grun fmsg_eqb fzero fw_validate fw_merge fclock str_ltb (idfun_of i) model_v0 false cprog
+       (fun t => nth t cands []) sched (ginit (rmask := list fld) cprog (init_v None) (init_c cinit)).
+
+Fixpoint all_upto (n : nat) (f : nat -> bool) : bool :=
+  match n with O => true | S k => f k && all_upto k f end.
+
 Definition agrees (c : ccase) : bool :=
   match c with
   | CaseSched i vinit cinit prog sched results fv fc vstreams cstreams closed =>
@@ -219,6 +236,15 @@ Definition agrees (c : ccase) : bool :=
                  end) (st_csubs s)
   | CaseHist _ _ _ _ _ _ => true      (* no schedule to compare: judged by the oracle alone *)
   | CaseFree _ _ _ _ _ _ _ _ _ _ => true
+  | CaseGen i cinit prog cands sched results reported created fc =>
+      let gs := f_grun i prog cands sched cinit in
+      let s := g_st gs in
+      (Nat.eqb (st_stutter s) 0) && all_done s &&
+      list_match pc_matches (st_pcs s) results &&
+      list_eqb kv_eqb (final_list (w_c (st_w s))) fc &&
+      Nat.eqb (List.length reported) (List.length prog) && Nat.eqb (List.length created) (List.length prog) &&
+      all_upto (List.length prog)
+        (fun t => list_eqb String.eqb (g_ids gs t) (nth t reported []) && (g_created gs t =? nth t created 0))
   end.
 
 (* ---------- C02: the history is linearizable (oracle: search over one-at-a-time orders,
@@ -277,11 +303,19 @@ Fixpoint lin_search (i : option idf) (fuel : nat) (pending : list hcall) (vc : v
     end
   end.
 
+(* no two calls carry the same pair of stamps (remove_first identifies a call by its stamps) *)
+Fixpoint keys_distinct (l : list hcall) : bool :=
+  match l with
+  | [] => true
+  | h :: r => negb (existsb (hcall_key_eqb h) r) && keys_distinct r
+  end.
+
 Definition linearizable_b (i : option idf) (vinit : option fmsg) (cinit : list (string * fmsg * Z))
            (hist : list hcall) (fv : option fmsg) (fc : list (string * fmsg)) : bool :=
   let writes := filter (fun h => is_write_call (h_call h)) hist in
   forallb allowed_code writes &&
   let eff := filter (fun h => negb (is_lost h)) writes in
+  keys_distinct eff &&
   lin_search i (List.length eff) eff (init_v vinit, init_c cinit) fv fc.
 
 (* invocation = index of the thread's first step, response = index of its last step *)
@@ -296,6 +330,66 @@ Fixpoint hist_of (t : nat) (prog : list fcall) (results : list fout) (sched : li
   | _, _ => []
   end.
 
+(* generated ids, judged on the observation alone (no LTS): a generating call that reported id g is
+   replayed by the reference as the call of g that REQUIRES g to be unused at its linearization
+   instant when it creates (the reference may pick any unused id, and g must have been one) *)
+Definition f_is_gen (i : option idf) (c : fcall) : bool :=
+  match c with
+  | FAdd id _ o | FUpdate id _ o => String.eqb (apply_id (idfun_of i) id) "" && o_gen_id o
+  | _ => false
+  end.
+
+Definition fwo_no_gen (o : fwo) : fwo :=
+  mkFWO' (o_time o) (o_update o) (o_reset o) (o_more_writable o) (o_all_writable o) (o_expected o) (o_expect_absent o)
+         (o_check o) (o_allow_missing o) (o_before o) (o_after o) (o_create o) (o_created_cb o) false (o_id_cb o)
+         (o_more_update o).
+
+Definition subst_one (i : option idf) (c : fcall) (rep : list string) : fcall :=
+  if f_is_gen i c then
+    match rep, c with
+    | g :: _, FAdd _ msg o => FAdd g msg (fwo_no_gen o)
+    | g :: _, FUpdate _ msg o => if o_create o then FAdd g msg (fwo_no_gen o) else FUpdate g msg (fwo_no_gen o)
+    | _, _ => c
+    end
+  else c.
+
+Fixpoint subst_reported (i : option idf) (t : nat) (prog : list fcall) (reported : list (list string)) : list fcall :=
+  match prog with
+  | [] => []
+  | c :: r => subst_one i c (nth t reported []) :: subst_reported i (S t) r reported
+  end.
+
+(* a generating call reports at most one id, one of its rng's first ten candidates and not empty; it
+   reports one whenever it succeeds; a call that does not generate reports none *)
+Fixpoint gen_ok (i : option idf) (t : nat) (prog : list fcall) (cands : list (list string)) (results : list fout)
+         (reported : list (list string)) : bool :=
+  match prog, results with
+  | c :: pr, b :: rr =>
+      (match nth t reported [] with
+       | [] => negb (f_is_gen i c) || negb (fo_code b =? 0)
+       | [g] => f_is_gen i c && negb (String.eqb g "") && existsb (String.eqb g) (firstn 10 (nth t cands []))
+       | _ => false
+       end) && gen_ok i (S t) pr cands rr reported
+  | _, _ => true
+  end.
+
+Definition is_delete_call (c : fcall) : bool := match c with FDelete _ _ => true | _ => false end.
+
+(* the stored ids of the generating calls that created an item *)
+Fixpoint created_ids (i : option idf) (t : nat) (prog : list fcall) (results : list fout) (reported : list (list string))
+  : list string :=
+  match prog, results with
+  | c :: pr, b :: rr =>
+      (match nth t reported [] with
+       | g :: _ => if f_is_gen i c && (fo_code b =? 0) then [apply_id (idfun_of i) g] else []
+       | [] => []
+       end) ++ created_ids i (S t) pr rr reported
+  | _, _ => []
+  end.
+
+Fixpoint gen_distinct (i : option idf) (l : list string) : bool :=
+  match l with [] => true | x :: r => negb (existsb (String.eqb x) r) && gen_distinct i r end.
+
 Definition C02_ok (c : ccase) : bool :=
   match c with
   | CaseSched i vinit cinit prog sched results fv fc _ _ _ =>
@@ -303,6 +397,10 @@ Definition C02_ok (c : ccase) : bool :=
   | CaseHist i vinit cinit hist fv fc =>
       linearizable_b i vinit cinit (map (fun p => mkH (fst (fst (fst p))) (snd (fst (fst p))) (snd (fst p)) (snd p)) hist) fv fc
   | CaseFree _ _ _ _ _ _ _ _ _ _ => true
+  | CaseGen i cinit prog cands sched results reported created fc =>
+      linearizable_b i None cinit (hist_of 0 (subst_reported i 0 prog reported) results sched) None fc &&
+      gen_ok i 0 prog cands results reported &&
+      (existsb is_delete_call prog || gen_distinct i (created_ids i 0 prog results reported))
   end.
 
 (* ---------- C03: the folded view is the final read ---------- *)
@@ -366,6 +464,7 @@ Definition C03_ok (c : ccase) : bool :=
   | CaseFree i vinit cinit prog results fv fc vstreams cstreams closed =>
       c03_pred i prog fv fc vstreams cstreams closed
   | CaseHist _ _ _ _ _ _ => true
+  | CaseGen _ _ _ _ _ _ _ _ _ => true
   end.
 
 (* Known finding C03/1 (a publication overtook an earlier commit: Set and Update published after
